@@ -3,7 +3,7 @@
    used for the core fragment.  Cnl/Core.v: the core fragment F0, its compile model (byte-exact on F0), grounding, and the reading. *)
 Require Import Coq.Strings.String Coq.Lists.List Coq.Bool.Bool.
 Require Import Coq.ZArith.ZArith Lia.
-Require Import Cnl2aspV.Asp.Ground Cnl2aspV.Cnl.Core Cnl2aspV.Cnl.CoreProofs Cnl2aspV.Cnl.CoreOneOf Cnl2aspV.Cnl.CoreDef Cnl2aspV.Cnl.CoreChoice Cnl2aspV.Cnl.CoreChoiceEach Cnl2aspV.Cnl.CoreWhere Cnl2aspV.Cnl.Comparison Cnl2aspV.Cnl.CoreProgram Cnl2aspV.Cnl.CoreSupport Cnl2aspV.Cnl.CoreStable Cnl2aspV.Cnl.CoreExact.
+Require Import Cnl2aspV.Asp.Ground Cnl2aspV.Cnl.Core Cnl2aspV.Cnl.CoreProofs Cnl2aspV.Cnl.CoreOneOf Cnl2aspV.Cnl.CoreDef Cnl2aspV.Cnl.CoreChoice Cnl2aspV.Cnl.CoreChoiceEach Cnl2aspV.Cnl.CoreWhere Cnl2aspV.Cnl.Comparison Cnl2aspV.Cnl.CoreProgram Cnl2aspV.Cnl.CoreSupport Cnl2aspV.Cnl.CoreStable Cnl2aspV.Cnl.CoreExact Cnl2aspV.Cnl.CoreStableDef.
 Import ListNotations.
 
 (* for hierarchical ground programs (no predicate depends on itself): I is a stable model iff it satisfies the constraints and
@@ -373,3 +373,59 @@ Proof.
   - vm_compute. repeat constructor; cbn; intuition discriminate.
   - intros n Hn. vm_compute in Hn. destruct Hn as [<-|[<-|[<-|[]]]]; reflexivity.
 Qed.
+
+(* ... and WITH derived definitions over one quantified clause in the program ("A c X is <p> when c X [does not] <verb> d Y", any
+   number of them, each with its own predicate): three levels (concept atoms, chosen atoms, derived atoms), the same statement.
+   Hypotheses: every sentence is of a covered kind or such a definition; `separated_d` (decidable: chosen instances are no concept
+   atoms, derived atoms over the universe are neither concept atoms nor chosen instances, the relation atoms in a definition's
+   body are no derived atoms -- so definitions do not chain); the predicates of the definitions are pairwise different and contain
+   no '('; and I holds exactly the declared concept values (not yet removed for this larger fragment).  Partial: that hypothesis,
+   multi-clause bodies, chained definitions, 'is one of' on definitions and choices. *)
+Theorem C01_answer_sets_are_the_models_with_definitions_partial :
+  forall (s : spec) (I : interp),
+    (forall x, In x (sentences s) -> ok_sentence s x) ->
+    separated_d s (universe s) = true ->
+    preds_ok s ->
+    (forall n, declared s n -> forall x, In x (universe s) -> holds I (atom_text n [x]) = Util.mem_string x (dom_of s n)) ->
+    (stable (ground s) I <-> reading s I = true).
+Proof. intros s I Hok Hsep Hp Hdom. exact (stable_iff_reading_defs s Hok Hsep I Hp Hdom). Qed.
+Print Assumptions C01_answer_sets_are_the_models_with_definitions_partial.
+
+(* non-vacuity: a choice, a definition over the chosen relation (negated clause: 'free' rooms host not every shelf), a constraint;
+   the hypotheses hold, an interpretation with the right derived atoms is a model, one with a missing or an extra derived atom is not *)
+Example C01_definitions_example :
+  let host := {| v_word := "host"; v_copula := false; v_prep := None |} in
+  let cl := {| cl_subj := "room"; cl_slabel := "R"; cl_neg := false; cl_verb := host; cl_obj := "shelf"; cl_olabel := "S" |} in
+  let s := {| concepts := [{| c_name := "room"; c_key := "id"; c_dom := DRange 1 2 |}; {| c_name := "shelf"; c_key := "id"; c_dom := DRange 1 2 |}];
+              sentences := [SChoice {| ch_subj := "room"; ch_slabel := None; ch_verb := host; ch_card := CAtMost 1; ch_obj := "shelf";
+                                       ch_olabel := None; ch_foreach := None |};
+                            SDef "room" "R" "busy" [cl];
+                            SCons false [] [cl] (Some {| w_left := "R"; w_phrase := "greater than"; w_right := "S" |})] |} in
+  let D := ["room(1)"; "room(2)"; "shelf(1)"; "shelf(2)"]%string in
+  (forall x, In x (sentences s) -> ok_sentence s x) /\ separated_d s (universe s) = true /\ preds_ok s /\
+  reading s ("host(1,2)" :: "busy(1)" :: D)%string = true /\ reading s ("host(1,2)" :: D)%string = false /\
+  reading s ("host(1,2)" :: "busy(1)" :: "busy(2)" :: D)%string = false.
+Proof.
+  cbv zeta. split; [|split; [vm_compute; reflexivity|split; [|vm_compute; repeat split]]].
+  - intros x [<-|[<-|[<-|[]]]].
+    + left. split; [|exact Logic.I]. cbn [covered]. unfold declared, concept_names. cbn [map concepts c_name In ch_foreach].
+      repeat split; try discriminate; auto. vm_compute. repeat constructor; cbn; intuition discriminate.
+    + right. cbn [def1]. unfold declared, concept_names. cbn. repeat split; try discriminate; auto.
+    + left. split; [|exact Logic.I]. cbn [covered]. unfold declared, concept_names. cbn [map concepts c_name In].
+      repeat split; try discriminate; auto. vm_compute. tauto.
+  - split.
+    + vm_compute. repeat constructor. cbn. tauto.
+    + intros p Hp. vm_compute in Hp. destruct Hp as [<-|[]]. reflexivity.
+Qed.
+
+(* ... and, with pairwise different concept names without '(', for EVERY interpretation: the answer sets of the ground compiled
+   program of a specification of concepts, choice sentences, single-clause / named-instance constraints and single-clause derived
+   definitions are the models of the reading. *)
+Theorem C01_answer_sets_are_the_models_with_definitions_every_interpretation_partial :
+  forall (s : spec) (I : interp),
+    names_ok s -> preds_ok s ->
+    (forall x, In x (sentences s) -> ok_sentence s x) ->
+    separated_d s (universe s) = true ->
+    (stable (ground s) I <-> reading s I = true).
+Proof. intros s I Hn Hp Hok Hsep. exact (stable_iff_reading_defs_all s I Hn Hok Hsep Hp). Qed.
+Print Assumptions C01_answer_sets_are_the_models_with_definitions_every_interpretation_partial.
